@@ -8,6 +8,7 @@
   pointer, index and offset — C02 makes the offset canonical).
 -/
 import CstModel.Proofs.Conc
+import CstModel.Proofs.RedConc
 import CstModel.Generated.SourceFacts
 namespace Cst.C05
 
@@ -196,5 +197,42 @@ def exRun : Option Sys := do
 example : (match exRun with
     | some s => s.rc == 2 && s.slots == [some (true, 0)] && s.blocks == [0] && s.freed == [1] && s.torn == 0
     | none => false) = true := by decide
+
+/-! ### refinement to the sequential red tree (`Model/RedConc`): what a filled slot holds -/
+
+/-- **any interleaving keeps the shared tree canonical**: from a fresh tree, whatever sequence of read phases (of
+    operations that keep the sequential tree canonical — every navigation request does: `Proofs/Red`, `Proofs/TokenNav`)
+    and `try_write`s the threads perform, in whatever order, every filled slot holds the canonical offset of its
+    position, i.e. exactly what the sequential tree holds there by any route (`agrees_with_sequential`) -/
+theorem slots_canonical_any_interleaving (g : Green) (hg : LenOk g) (n : Nat) (acts : List (Nat × RedConc.Act)) (s : RedConc.Sys)
+    (hk : ∀ t f, (t, RedConc.Act.read f) ∈ acts → RedConc.KeepsR f) (hrun : RedConc.run (RedConc.Sys.init g n) acts = some s) :
+    RedConc.Inv s ∧ s.red.root = g :=
+  RedConc.inv_run acts (RedConc.Sys.init g n) s (RedConc.inv_init g hg n) hk hrun
+
+/-- **the concurrent tree agrees with every sequential one**: a position materialised both in a concurrently used
+    tree and in any sequentially navigated tree over the same green tree has the same offset (hence range; kind and
+    parent are functions of the position) -/
+theorem concurrent_agrees_with_sequential (s : RedConc.Sys) (hI : RedConc.Inv s) (r : Red) (hr : RInv r) (hroot : r.root = s.red.root)
+    (q : Path) (o o' : Nat) (h1 : s.red.start q = some o) (h2 : r.start q = some o') : o = o' :=
+  RedConc.agrees_with_sequential s hI r hr hroot q o o' h1 h2
+
+/-- **losing a creation race has no observable effect**, and a filled slot is never overwritten -/
+theorem race_loser_unobservable (s : RedConc.Sys) (hI : RedConc.Inv s) (es : List RedConc.Entry) (hes : es ∈ s.thr) (e : RedConc.Entry) (he : e ∈ es)
+    (o : Nat) (hfilled : s.red.slots.lookup e.1 = some o) :
+    o = e.2 ∧ ∀ t a (s' : RedConc.Sys), RedConc.step s t a = some s' → s'.red.slots.lookup e.1 = some o :=
+  ⟨RedConc.loser_finds_its_own s hI es hes e he o hfilled, fun t a s' hs => RedConc.written_once s s' t a hs e.1 o hfilled⟩
+
+/-- non-vacuity and the tie to the sequential operation: an uninterrupted read + write is `get_or_add` itself; the
+    read phases of the model are the sequential navigation requests -/
+theorem atomic_is_get_or_add (s : RedConc.Sys) (t : Nat) (p : Path) (i o : Nat) (ht : s.thr[t]? = some [])
+    (hempty : s.red.slots.lookup (p ++ [i]) = none) :
+    ∃ s1 s2, RedConc.step s t (.read (fun r => r.getOrAdd p i o)) = some s1 ∧ RedConc.step s1 t .write = some s2 ∧
+      s2.red = s.red.getOrAdd p i o ∧ s2.thr = s.thr :=
+  RedConc.atomic_is_sequential s t p i o ht hempty
+
+example (p : Path) : RedConc.KeepsR (fun r => (r.firstChildOrToken p).2) ∧ RedConc.KeepsR (fun r => (r.lastChild p).2) ∧
+    RedConc.KeepsR (fun r => (r.nextSibling p).2) ∧ RedConc.KeepsR (fun r => (r.preorderWithTokens p).2) :=
+  ⟨RedConc.keepsR_of_keeps (firstChildOrToken_keeps p), RedConc.keepsR_of_keeps (lastChild_keeps p), RedConc.keepsR_of_keeps (nextSibling_keeps p),
+   RedConc.keepsR_of_keeps (preorderWithTokens_keeps p)⟩
 
 end Cst.C05
